@@ -144,4 +144,63 @@ Lemma SpecI_input : forall inp n v, nkind n = KInput -> input_get inp (nidx n) =
 Proof. intros. eapply sev_input; eauto. Qed.
 Lemma SpecI_input_inv : forall inp n v, nkind n = KInput -> SpecI inp n v -> input_get inp (nidx n) = Some v.
 Proof. intros inp n v K H. inversion H; subst; congruence. Qed.
+
+(** ** the reads of the from-scratch evaluation, relationally *)
+Inductive srd (inp : inputs) : expr -> node -> Prop :=
+| srd_read : forall n, srd inp (ERead n) n
+| srd_add_l : forall a b d, srd inp a d -> srd inp (EAdd a b) d
+| srd_add_r : forall a b x d, sev inp a x -> srd inp b d -> srd inp (EAdd a b) d
+| srd_mul_l : forall a b d, srd inp a d -> srd inp (EMul a b) d
+| srd_mul_r : forall a b x d, sev inp a x -> srd inp b d -> srd inp (EMul a b) d
+| srd_lt_l : forall a b d, srd inp a d -> srd inp (ELt a b) d
+| srd_lt_r : forall a b x d, sev inp a x -> srd inp b d -> srd inp (ELt a b) d
+| srd_mod : forall a m d, srd inp a d -> srd inp (EMod a m) d
+| srd_if_c : forall c a b d, srd inp c d -> srd inp (EIf c a b) d
+| srd_if_b : forall c a b x d, sev inp c x -> srd inp (if x =? 0 then b else a) d -> srd inp (EIf c a b) d.
+
+Lemma srd_expr_reads : forall inp e d, srd inp e d -> In d (expr_reads e).
+Proof.
+  intros inp e d H. induction H; cbn [expr_reads]; try (apply in_or_app; auto; fail); auto.
+  - left. reflexivity.
+  - apply in_or_app. right. apply in_or_app. destruct (x =? 0); auto.
+Qed.
+
+Lemma sreads_mono : forall f inp e d, In d (sreads f p inp e) ->
+  forall f', (f <= f')%nat -> In d (sreads f' p inp e).
+Proof.
+  induction f as [|f IH]; intros inp e d H f' Hle; [destruct H|].
+  destruct f' as [|f']; [lia|]. assert (Hle' : (f <= f')%nat) by lia.
+  cbn [sreads] in *. destruct e; try exact H.
+  - apply in_app_or in H. apply in_or_app. destruct H as [H|H]; [left; eapply IH; eauto|right].
+    destruct (sexpr f p inp e1) as [x|] eqn:E1; [|destruct H]. rewrite (sexpr_mono _ _ _ _ E1 _ Hle'). eapply IH; eauto.
+  - apply in_app_or in H. apply in_or_app. destruct H as [H|H]; [left; eapply IH; eauto|right].
+    destruct (sexpr f p inp e1) as [x|] eqn:E1; [|destruct H]. rewrite (sexpr_mono _ _ _ _ E1 _ Hle'). eapply IH; eauto.
+  - eapply IH; eauto.
+  - apply in_app_or in H. apply in_or_app. destruct H as [H|H]; [left; eapply IH; eauto|right].
+    destruct (sexpr f p inp e1) as [x|] eqn:E1; [|destruct H]. rewrite (sexpr_mono _ _ _ _ E1 _ Hle'). eapply IH; eauto.
+  - apply in_app_or in H. apply in_or_app. destruct H as [H|H]; [left; eapply IH; eauto|right].
+    destruct (sexpr f p inp e1) as [x|] eqn:E1; [|destruct H]. rewrite (sexpr_mono _ _ _ _ E1 _ Hle'). eapply IH; eauto.
+Qed.
+
+Lemma srd_sreads : forall inp e d, srd inp e d -> exists f, In d (sreads f p inp e).
+Proof.
+  intros inp e d H. induction H.
+  - exists 1%nat. left. reflexivity.
+  - destruct IHsrd as [f Hf]. exists (S f). cbn [sreads]. apply in_or_app. auto.
+  - destruct IHsrd as [f2 H2]. destruct (sev_sexpr _ _ _ H) as [f1 H1]. exists (S (f1 + f2)). cbn [sreads].
+    apply in_or_app. right. rewrite (sexpr_mono _ _ _ _ H1 (f1 + f2)%nat) by lia. eapply sreads_mono; eauto. lia.
+  - destruct IHsrd as [f Hf]. exists (S f). cbn [sreads]. apply in_or_app. auto.
+  - destruct IHsrd as [f2 H2]. destruct (sev_sexpr _ _ _ H) as [f1 H1]. exists (S (f1 + f2)). cbn [sreads].
+    apply in_or_app. right. rewrite (sexpr_mono _ _ _ _ H1 (f1 + f2)%nat) by lia. eapply sreads_mono; eauto. lia.
+  - destruct IHsrd as [f Hf]. exists (S f). cbn [sreads]. apply in_or_app. auto.
+  - destruct IHsrd as [f2 H2]. destruct (sev_sexpr _ _ _ H) as [f1 H1]. exists (S (f1 + f2)). cbn [sreads].
+    apply in_or_app. right. rewrite (sexpr_mono _ _ _ _ H1 (f1 + f2)%nat) by lia. eapply sreads_mono; eauto. lia.
+  - destruct IHsrd as [f Hf]. exists (S f). cbn [sreads]. exact Hf.
+  - destruct IHsrd as [f Hf]. exists (S f). cbn [sreads]. apply in_or_app. auto.
+  - destruct IHsrd as [f2 H2]. destruct (sev_sexpr _ _ _ H) as [f1 H1]. exists (S (f1 + f2)). cbn [sreads].
+    apply in_or_app. right. rewrite (sexpr_mono _ _ _ _ H1 (f1 + f2)%nat) by lia. eapply sreads_mono; eauto. lia.
+Qed.
+
+Lemma srd_Reads : forall inp n b d, alookup p n = Some b -> srd inp b d -> Reads p inp n d.
+Proof. intros inp n b d Hb H. destruct (srd_sreads _ _ _ H) as [f Hf]. exists f, b. auto. Qed.
 End Sem.
